@@ -57,7 +57,7 @@ using nlohmann::json;
 // under the finding's key WITHOUT calling the reader.  Set to false after a
 // repair in /repo: the same inputs are then read and compared like any other.
 #ifndef C19_F1_OPEN
-#    define C19_F1_OPEN 1
+#    define C19_F1_OPEN 0
 #endif
 constexpr bool kF1Open = C19_F1_OPEN;
 char const* const kF1Key = "F1-json-involute-read";
